@@ -167,13 +167,17 @@ def main():
         V.count(evaluations=len(keeps), nontrivial=nontriv, traces=len(keeps))
 
     # ---- (3) fw family
-    for scale, maxx, sb, label in ((1, 150, 13, 'integers'), (100, 100, 2, 'probabilities')):
-        res, fws = tlc_part(V, f'Transformers/fw-{label}', defs, dict(base, Part='"fw"', Scale=scale, MaxX=maxx, SqrtBound=sb), ['FWShape', 'EmitFW'], 'FW')
+    ties_judged = [0]
+    # the dyadic grid (multiples of 1/64 up to 10, thresholds 1, 2, 4, 8) contains the EXACT ties sqrt(x-T)*R = k + 1/2
+    # (x-T = 1/4, 9/4, 25/4 for R=1; 1/16, 9/16 for R=10; 1/16 for R=50; 1/64, 9/64 for R=100), exact also in binary floating point
+    for scale, maxx, sb, label in ((1, 150, 13, 'integers'), (100, 100, 2, 'probabilities'), (64, 640, 4, 'dyadic')):
+        extra = {'Thresholds': '{64,128,256,512}'} if label == 'dyadic' else {}
+        res, fws = tlc_part(V, f'Transformers/fw-{label}', defs, dict(base, Part='"fw"', Scale=scale, MaxX=maxx, SqrtBound=sb, **extra), ['FWShape', 'TieIsHalfEven', 'EmitFW'], 'FW')
         exp = {}
-        for _, (rs, gt, x), val, tie in fws:
-            exp[(rs, gt, x)] = (val, tie)
+        for _, (rs, gt, x), val, tie, even in fws:
+            exp[(rs, gt, x)] = (val, tie, even)
         xs = list(range(0, maxx + 1))
-        values = [str(x) if scale == 1 else repr(x / 100) for x in xs]
+        values = [str(x) if scale == 1 else repr(x / scale) for x in xs]
         r_ = PC.pipe_eval([{'op': 'transform_columns', 'items': [{'values': values, 'preset': 'fw-transformers'}]}], modules=['sketch_ops'])[0]
         if not r_ or 'ok' not in r_ or 'error' in r_['ok'][0]:
             V.violation(f'raises:fw-{label}', f'construct_new_features failed: {PC.failure_text(r_) or r_["ok"][0].get("error")}', {'values': values[:10]})
@@ -191,15 +195,22 @@ def main():
             if prob != (scale == 100):
                 continue
             gt = int(round(float(gts) * scale))
+            if label == 'dyadic' and gt > maxx:
+                continue
             nfw += 1
             for x, txt in zip(xs, ob['values'][col]):
                 realv = float(txt)
                 key = f'fw:{col}:x={x / scale if scale > 1 else x}'
                 if kind == 'sqrt':
-                    val, tie = exp[(rs, gt, x)]
+                    val, tie, even = exp[(rs, gt, x)]
                     e = (x / scale) if val[0] == 'id' else float(val[1])
-                    ok = same(realv, e, 1e-12) or (tie and same(realv, e + 1, 1e-12))
-                    if not ok and val[0] == 'int' and x > gt:
+                    if label == 'dyadic' and tie:
+                        e = float(even)       # an exact tie, exact in floating point too: round-half-to-even
+                        ties_judged[0] += 1
+                        ok = same(realv, e, 1e-12)
+                    else:
+                        ok = same(realv, e, 1e-12) or (tie and same(realv, e + 1, 1e-12))
+                    if not ok and val[0] == 'int' and x > gt and label != 'dyadic':
                         # float evaluation of (x-gt) on the decimal grid may sit within rounding distance of a tie: accept only if the exact value is that close
                         exact = math.sqrt((x - gt) / scale) * rs
                         ok = abs(exact - math.floor(exact) - 0.5) < 1e-9 and abs(realv - round(exact)) <= 1
@@ -217,8 +228,12 @@ def main():
                 if not ok:
                     V.violation(key, f'value {txt}; the name says {"x" if x < gt else "0" if x == gt else f"round({kind}(x-{gt / scale if scale > 1 else gt})*{rs})"} = {e}', {'column': col, 'x': x / scale})
                     break
-        if nfw < 20:
+        if nfw < (20 if label != 'dyadic' else 8):
             raise E.MachineryError(f'only {nfw} fw columns were emitted for the {label} grid (vacuous)')
+        if label == 'dyadic':
+            if sum(1 for v_ in exp.values() if v_[1]) < 20:
+                raise E.MachineryError(f'only {sum(1 for v_ in exp.values() if v_[1])} exact ties on the dyadic grid (vacuous)')
+            V.notes['fw_exact_ties_judged'] = ties_judged[0]
         V.count(evaluations=nfw * len(xs), nontrivial=nfw * len(xs) // 2, traces=nfw)
         V.notes[f'fw_columns_{label}'] = nfw
 
